@@ -110,20 +110,21 @@ def chain_cases(draw, tier="quick"):
         ey, emo = divmod(em, 12)
         ed = draw(st.integers(1, 28))
         fmt = draw(st.sampled_from(["datetime", "str-month", "str-day"]))
-        return {"cls": cls, "mode": "span", "start": [y, m, d], "end": [ey, emo + 1, ed], "fmt": fmt}
+        return {"cls": cls, "mode": "span", "start": [y, m, d], "end": [ey, emo + 1, ed], "fmt": fmt,
+                "month": draw(st.sampled_from([0, 0, 1, 2]))}
     # explicit (shuffled) contract lists stay on the class's own listing cycle - the cycle FutureChain(cls, start, end)
     # itself lists (quarterly for ES/NK/Treasuries, monthly for VX): the statement speaks of chains "built from a
     # built-in class over a span". (Adjacent *monthly* Treasury contracts can share a last trading date.)
     y0 = draw(st.integers(1970, 2060))
     months = st.integers(1, 12) if cls == "VX" else st.sampled_from([3, 6, 9, 12])
     items = draw(st.lists(st.tuples(st.integers(0, 30), months), min_size=1, max_size=12, unique=True))
-    return {"cls": cls, "mode": "list", "contracts": [[y0 + dy, m] for dy, m in items]}
+    return {"cls": cls, "mode": "list", "contracts": [[y0 + dy, m] for dy, m in items], "month": draw(st.sampled_from([0, 0, 1, 2]))}
 
 
 def run_chain(case):
     res = Result()
     cls = getattr(C, case["cls"])
-    res.tag(case["cls"], case["mode"])
+    res.tag(case["cls"], case["mode"], "month-offset=%d" % case.get("month", 0))
     if case["mode"] == "span":
         s, e = case["start"], case["end"]
         if case["fmt"] == "datetime":
@@ -132,10 +133,10 @@ def run_chain(case):
             start, end = "%04d-%02d" % tuple(s[:2]), "%04d-%02d" % tuple(e[:2])
         else:
             start, end = "%04d-%02d-%02d" % tuple(s), "%04d-%02d-%02d" % tuple(e)
-        chain = C.FutureChain(cls, start, end)
+        chain = C.FutureChain(cls, start, end, month=case.get("month", 0))
     else:
         futs = [cls(y, m) for y, m in case["contracts"]]
-        chain = C.FutureChain(contracts=futs)
+        chain = C.FutureChain(contracts=futs, month=case.get("month", 0))
         if len(chain.contracts) != len(futs):
             res.fail("explicit chain lost contracts: %d given, %d listed" % (len(futs), len(chain.contracts)))
     cs = list(chain.contracts)
